@@ -1766,6 +1766,13 @@ class FixedIncomeSecurity(SecurityBase):
     Only relevant when using :class:`FixedIncomeStrategy <bt.core.FixedIncomeStrategy>`.
     """
 
+    @cy.locals(multiplier=cy.double)
+    def __init__(self, name, multiplier=1, lazy_add=False):
+        super(FixedIncomeSecurity, self).__init__(name, multiplier, lazy_add)
+        # sized by notional (par): a fixed income strategy rebalances it with
+        # transact, like a coupon paying security
+        self._fixed_income = True
+
     @cy.locals(coupon=cy.double)
     def update(self, date, data=None, inow=None):
         """
